@@ -31,8 +31,8 @@ fn addr() -> SocketAddr {
 // RTP
 // ---------------------------------------------------------------------------------------
 
-const RTP_A: [u8; 9] = [0x00, 0x01, 0x10, 0x1F, 0x7F, 0x80, 0x90, 0xBE, 0xFF];
-const EXT_A: [u8; 8] = [0x00, 0x01, 0x10, 0x1F, 0x2F, 0x7F, 0xF0, 0xFF];
+pub const RTP_A: [u8; 9] = [0x00, 0x01, 0x10, 0x1F, 0x7F, 0x80, 0x90, 0xBE, 0xFF];
+pub const EXT_A: [u8; 8] = [0x00, 0x01, 0x10, 0x1F, 0x2F, 0x7F, 0xF0, 0xFF];
 
 const RTP_FIXED: [u8; 12] = [0x80, 0x60, 0x00, 0x65, 0x00, 0x00, 0x03, 0xE8, 0x11, 0x22, 0x33, 0x44];
 
@@ -43,19 +43,19 @@ fn rtp_with_b0(b0: u8, body: &[u8]) -> Vec<u8> {
     v
 }
 /// fixed header + payload
-fn fr_rtp_payload(b: &[u8]) -> Vec<u8> {
+pub fn fr_rtp_payload(b: &[u8]) -> Vec<u8> {
     rtp_with_b0(0x80, b)
 }
 /// X bit set; body = profile, length, data as enumerated
-fn fr_rtp_x(b: &[u8]) -> Vec<u8> {
+pub fn fr_rtp_x(b: &[u8]) -> Vec<u8> {
     rtp_with_b0(0x90, b)
 }
 /// P bit set; body = payload incl. padding count
-fn fr_rtp_p(b: &[u8]) -> Vec<u8> {
+pub fn fr_rtp_p(b: &[u8]) -> Vec<u8> {
     rtp_with_b0(0xA0, b)
 }
 /// first body byte supplies P/X/CC
-fn fr_rtp_flags(b: &[u8]) -> Vec<u8> {
+pub fn fr_rtp_flags(b: &[u8]) -> Vec<u8> {
     match b.split_first() {
         Some((f, rest)) => rtp_with_b0(0x80 | (f & 0x3F), rest),
         None => RTP_FIXED.to_vec(),
@@ -72,11 +72,11 @@ fn rtp_ext(profile: u16, b: &[u8], tail: &[u8]) -> Vec<u8> {
     v
 }
 /// well-formed one-byte-header extension block whose element bytes are enumerated
-fn fr_rtp_bede(b: &[u8]) -> Vec<u8> {
+pub fn fr_rtp_bede(b: &[u8]) -> Vec<u8> {
     rtp_ext(0xBEDE, b, &[0xAB, 0xCD])
 }
 /// two-byte-header extension block whose element bytes are enumerated
-fn fr_rtp_1000(b: &[u8]) -> Vec<u8> {
+pub fn fr_rtp_1000(b: &[u8]) -> Vec<u8> {
     rtp_ext(0x1000, b, &[0xAB, 0xCD])
 }
 
@@ -221,7 +221,7 @@ fn run_jitter(i: &[u8], _p: &mut Probe) -> u32 {
     1 + acc
 }
 
-fn rtp_seeds() -> Vec<(String, Vec<u8>)> {
+pub fn rtp_seeds() -> Vec<(String, Vec<u8>)> {
     let mut out = vec![];
     let mut add = |n: &str, p: RtpPacket| {
         if let Ok(b) = p.marshal() {
@@ -282,7 +282,7 @@ fn h264_payload_seeds() -> Vec<(String, Vec<u8>)> {
 // RTCP
 // ---------------------------------------------------------------------------------------
 
-const RTCP_A: [u8; 9] = [0x00, 0x01, 0x02, 0x04, 0x1F, 0x21, 0x7F, 0x80, 0xFF];
+pub const RTCP_A: [u8; 9] = [0x00, 0x01, 0x02, 0x04, 0x1F, 0x21, 0x7F, 0x80, 0xFF];
 
 fn rtcp_pkt(pt: u8, fmt_and_p: u8, content: &[u8]) -> Vec<u8> {
     let mut c = content.to_vec();
@@ -304,12 +304,12 @@ fn counted(pt: u8, prefix: &[u8], b: &[u8]) -> Vec<u8> {
     rtcp_pkt(pt, f, &c)
 }
 const SSRC: [u8; 4] = [0x11, 0x22, 0x33, 0x44];
-fn fr_rtcp_sr(b: &[u8]) -> Vec<u8> {
+pub fn fr_rtcp_sr(b: &[u8]) -> Vec<u8> {
     let mut pre = SSRC.to_vec();
     pre.extend_from_slice(&[0u8; 20]);
     counted(200, &pre, b)
 }
-fn fr_rtcp_rr(b: &[u8]) -> Vec<u8> {
+pub fn fr_rtcp_rr(b: &[u8]) -> Vec<u8> {
     counted(201, &SSRC, b)
 }
 fn fr_rtcp_sdes(b: &[u8]) -> Vec<u8> {
@@ -343,7 +343,7 @@ fn fr_rtcp_remb(b: &[u8]) -> Vec<u8> {
     fixed_fmt(206, 15, &pre, b)
 }
 /// packet type and count/format taken from the first two body bytes, valid length
-fn fr_rtcp_any(b: &[u8]) -> Vec<u8> {
+pub fn fr_rtcp_any(b: &[u8]) -> Vec<u8> {
     if b.len() < 2 {
         return rtcp_pkt(200, 0, &[]);
     }
@@ -403,7 +403,7 @@ fn rb(n: u32) -> ReportBlock {
         delay_since_last_sender_report: 0x00000100,
     }
 }
-fn rtcp_seeds() -> Vec<(String, Vec<u8>)> {
+pub fn rtcp_seeds() -> Vec<(String, Vec<u8>)> {
     let s = 0x11223344;
     let m = 0x55667788;
     let pk: Vec<(&str, Vec<RtcpPacket>)> = vec![
@@ -826,7 +826,13 @@ body_entry!(run_hvr, HelloVerifyRequest);
 body_entry!(run_ske, ServerKeyExchange);
 body_entry!(run_cert, CertificateMessage);
 body_entry!(run_cke, ClientKeyExchange);
-body_entry!(run_finished, Finished);
+fn run_finished(i: &[u8], _p: &mut Probe) -> u32 {
+    let mut b = Bytes::copy_from_slice(i);
+    match Finished::decode(&mut b) {
+        Ok(f) => 1 + f.verify_data.len().min(13) as u32,
+        Err(_) => 0,
+    }
+}
 
 fn fixed_random() -> Random {
     Random { gmt_unix_time: 0x01020304, random_bytes: [0x5A; 28] }
@@ -1056,16 +1062,16 @@ macro_rules! srtp_entry {
         }
         /// authenticated packet: fixed header, flags from the first byte, enumerated payload,
         /// protected by rustrtc's own sender
-        fn $frtp(b: &[u8]) -> Vec<u8> {
+        pub fn $frtp(b: &[u8]) -> Vec<u8> {
             protect_plain_rtp($p, b)
         }
         /// authenticated packet whose clear bytes (incl. P/X/CC flags and a possibly inconsistent
         /// padding count) are arbitrary: protected by the independent reference implementation
-        fn $frtp_raw(b: &[u8]) -> Vec<u8> {
+        pub fn $frtp_raw(b: &[u8]) -> Vec<u8> {
             protect_raw_rtp($p, b)
         }
         /// authenticated SRTCP whose plaintext is `fr_rtcp_any(body)`
-        fn $frtcp(b: &[u8]) -> Vec<u8> {
+        pub fn $frtcp(b: &[u8]) -> Vec<u8> {
             protect_plain_rtcp($p, b)
         }
     };
@@ -1090,14 +1096,22 @@ fn protect_plain_rtp(p: SrtpProfile, b: &[u8]) -> Vec<u8> {
     sc::sess_protect_rtp(&mut s, &pk).unwrap_or_default()
 }
 fn protect_raw_rtp(p: SrtpProfile, b: &[u8]) -> Vec<u8> {
-    let raw = fr_rtp_flags(b);
-    match sc::new_ref(p, &ks()) {
-        Some(mut r) => match r.encrypt_rtp(&Bytes::from(raw.clone())) {
-            Ok(o) => o.to_vec(),
-            Err(_) => raw,
-        },
+    if sc::ref_profile(p).is_none() {
         // no reference for the NULL cipher: fall back to the stack's own protect
-        None => protect_plain_rtp(p, b),
+        return protect_plain_rtp(p, b);
+    }
+    protect_raw_bytes(p, fr_rtp_flags(b))
+}
+/// Protect arbitrary clear RTP bytes with the independent reference implementation (it only
+/// needs a parseable header); returns the clear bytes if the reference refuses them.
+pub fn protect_raw_bytes(p: SrtpProfile, raw: Vec<u8>) -> Vec<u8> {
+    let r = std::panic::catch_unwind(|| match sc::new_ref(p, &ks()) {
+        Some(mut r) => r.encrypt_rtp(&raw).ok().map(|o| o.to_vec()),
+        None => None,
+    });
+    match r {
+        Ok(Some(v)) => v,
+        _ => raw,
     }
 }
 fn protect_plain_rtcp(p: SrtpProfile, b: &[u8]) -> Vec<u8> {
@@ -1114,7 +1128,7 @@ srtp_entry!(run_srtp_rtp_32, run_srtp_rtcp_32, fr_srtp_32, fr_srtp_raw_32, fr_sr
 srtp_entry!(run_srtp_rtp_gcm, run_srtp_rtcp_gcm, fr_srtp_gcm, fr_srtp_raw_gcm, fr_srtcp_gcm, SrtpProfile::AeadAes128Gcm);
 srtp_entry!(run_srtp_rtp_null, run_srtp_rtcp_null, fr_srtp_null, fr_srtp_raw_null, fr_srtcp_null, SrtpProfile::NullCipherHmac);
 
-fn srtp_seeds(p: SrtpProfile, rtcp: bool) -> Vec<(String, Vec<u8>)> {
+pub fn srtp_seeds(p: SrtpProfile, rtcp: bool) -> Vec<(String, Vec<u8>)> {
     let mut out = vec![];
     if rtcp {
         for (n, plain) in rtcp_seeds().into_iter().take(4) {
